@@ -213,6 +213,13 @@ FRAGS = [
          params=[("was_cancelled", "bool"), ("has_result", "bool")],
          bind={"was_cancelled": "was_cancelled", "has_result": "has_result"},
          doc="Proactor::cancel_token returns false without touching the driver iff this holds"),
+    # ---- C03 / C18: the wait decision of Runtime::block_on ------------------------------------------
+    Frag("block_on_blocks", "compio-runtime/src/lib.rs",
+         block=(r"^\s*let remaining_tasks = self\.run\(\);", r"self\.poll\(\);\s*\}"),
+         subst=[(r"self\.run\(\)", "remaining"), (r"self\.poll_with\(Some\(Duration::ZERO\)\);", "false"),
+                (r"self\.poll\(\);", "true")],
+         params=[("remaining", "bool")], bind={"remaining": "remaining"},
+         doc="Runtime::block_on_at: true = the loop blocks in the driver (poll()), false = it only polls with a zero timeout"),
 ]
 
 # extra fragments are appended by the property builders below this line
